@@ -72,3 +72,64 @@ Theorem C12_premises_satisfiable :
   tail_after 6 [[97; 98]; [99; 100; 101]; [255]] = [0; 3].
 Proof. exact c12_premises_satisfiable. Qed.
 Print Assumptions C12_premises_satisfiable.
+
+(* ---- TCP: iocopy.Bidirectional as three threads (A->B copier, B->A copier, main) over Threads.v.
+   tcp_run sA sB cutsA cutsB endA endB wdA wdB sched = the state after ANY schedule `sched`, where endpoint A
+   sends the bytes sA under chunk oracle cutsA and ends with kind endA (0 = EOF, else an error, possibly
+   delivered with the last chunk), likewise B, and both endpoints accept every write. ---- *)
+
+(* delivered_is_prefix: at every point of every schedule, what has been written to B is a prefix of what A
+   sent and vice versa (in order, nothing invented), and no Read/Write has hit an endpoint that was
+   already closed by the relay *)
+Theorem C12_tcp_delivered_is_prefix :
+  forall sA sB cutsA cutsB endA endB wdA wdB sched,
+  let s := tcp_run sA sB cutsA cutsB endA endB wdA wdB sched in
+  (exists x, sA = d_out (sh_d0 (fst s)) ++ x) /\ (exists y, sB = d_out (sh_d1 (fst s)) ++ y) /\
+  sh_io_after_close (fst s) = 0.
+Proof. exact c12_tcp_prefix. Qed.
+Print Assumptions C12_tcp_delivered_is_prefix.
+
+(* complete + returns_after_both_done: under every schedule, once Bidirectional has returned every byte of
+   both directions has been delivered (read errors included: everything read before the error is delivered),
+   the byte counters are exact, each endpoint was half-closed exactly once and closed exactly once *)
+Theorem C12_tcp_complete_when_returned :
+  forall sA sB cutsA cutsB endA endB wdA wdB sched,
+  let s := tcp_run sA sB cutsA cutsB endA endB wdA wdB sched in
+  sh_ret (fst s) = true ->
+  d_out (sh_d0 (fst s)) = sA /\ d_out (sh_d1 (fst s)) = sB /\
+  d_bytes (sh_d0 (fst s)) = lenN sA /\ d_bytes (sh_d1 (fst s)) = lenN sB /\
+  d_cw (sh_d0 (fst s)) = 1 /\ d_cw (sh_d1 (fst s)) = 1 /\
+  sh_ncl_a (fst s) = 1 /\ sh_ncl_b (fst s) = 1 /\ sh_io_after_close (fst s) = 0.
+Proof. exact c12_tcp_complete. Qed.
+Print Assumptions C12_tcp_complete_when_returned.
+
+(* reverse_continues_after_half_close: under every schedule, while at least one copier has not finished,
+   NEITHER endpoint is closed (so the other direction keeps flowing), and a finished direction has
+   half-closed its destination exactly once *)
+Theorem C12_tcp_reverse_continues_after_half_close :
+  forall sA sB cutsA cutsB endA endB wdA wdB sched p0 p1 pm,
+  let s := tcp_run sA sB cutsA cutsB endA endB wdA wdB sched in
+  snd s = [(0%nat, p0); (1%nat, p1); (2%nat, pm)] -> (p0 <> PDone \/ p1 <> PDone) ->
+  sh_closed_a (fst s) = false /\ sh_closed_b (fst s) = false /\
+  (p0 = PDone -> d_cw (sh_d0 (fst s)) = 1) /\ (p1 = PDone -> d_cw (sh_d1 (fst s)) = 1).
+Proof. exact c12_tcp_half_close. Qed.
+Print Assumptions C12_tcp_reverse_continues_after_half_close.
+
+(* non-vacuity: a concrete schedule (A finishes and half-closes B first, B answers, ending in an error
+   delivered with its data) reaches the returned state *)
+Theorem C12_tcp_returns_example :
+  let s := tcp_run [1; 2; 3] [4; 5] [1%nat; 1%nat] [] 0 1 false true
+             ([0; 0; 0; 0; 0; 0; 2; 1; 2; 1; 1; 1; 2; 2; 2; 2]%nat) in
+  sh_ret (fst s) = true /\ d_out (sh_d0 (fst s)) = [1; 2; 3] /\ d_out (sh_d1 (fst s)) = [4; 5] /\
+  d_err (sh_d0 (fst s)) = 0 /\ d_err (sh_d1 (fst s)) = 1.
+Proof. exact c12_tcp_returns_example. Qed.
+Print Assumptions C12_tcp_returns_example.
+
+(* NOT proved (kept type-checked): every schedule that runs each thread often enough reaches the returned
+   state.  The correspondence run exercises it (the model must report sh_ret under the generated fair
+   schedules, the real code must return before the watchdog). *)
+Definition C12_tcp_termination_full_statement : Prop :=
+  forall sA sB cutsA cutsB endA endB wdA wdB sched,
+  (forall i, (i < 3)%nat -> (length sA + length sB + 8 <= count_occ Nat.eq_dec sched i)%nat) ->
+  sh_ret (fst (tcp_run sA sB cutsA cutsB endA endB wdA wdB
+                 (sched ++ concat (repeat [0; 1; 2]%nat (length sA + length sB + 8))))) = true.
